@@ -22,7 +22,10 @@ Inductive sexpr :=
 | XIndex (s : string) (i : sexpr)
 | XGetBE (w : Z) (s : string) (lo : sexpr) (hi : option sexpr)    (* binary.BigEndian.Uint<w>(s[lo:hi]) *)
 | XOrElse (a b : sexpr)                          (* a || b: b is not evaluated when a holds *)
-| XAndAlso (a b : sexpr).                        (* a && b: b is not evaluated when a fails *)
+| XAndAlso (a b : sexpr)                         (* a && b: b is not evaluated when a fails *)
+| XNot (a : sexpr)                               (* !a *)
+| XIsNil (s : string).                           (* s == nil: false for a slice of positive length; for an empty one the
+                                                    evaluator does not say (nil and empty are not told apart) *)
 
 Inductive sstmt :=
 | TDecl (x : string) (t : ty) (e : sexpr)                 (* x := e *)
@@ -36,7 +39,10 @@ Inductive sstmt :=
 | TAppend (s : string) (e : sexpr)                        (* s = append(s, e): capacities are not modelled (no two slices of a
                                                              printed function share an array: there is no slice-valued assignment) *)
 | TIf (c : sexpr) (a b : list sstmt)                      (* if c { a } else { b } *)
-| TReturnApp (s : string) (e : sexpr).                    (* return append(s, e) *)
+| TReturnApp (s : string) (e : sexpr)                     (* return append(s, e) *)
+| TForLen (i : string) (s : string) (body : list sstmt)   (* for i = 0; i < len(s); i++ { body }: i declared before the loop, not
+                                                             assigned in the body, s not appended to in the body *)
+| TReturnIntErr (e : sexpr) (err : string).               (* return e, <err>: err is "" for nil, else the text of the error expression *)
 
 Record sfunc := { sf_name : string; sf_params : list (string * ty); sf_body : list sstmt }.
 
@@ -123,6 +129,12 @@ Fixpoint seval (st : state) (x : sexpr) : option Z :=
       | Some va => if va =? 0 then Some 0 else seval st b
       | None => None
       end
+  | XNot a => option_map (fun v => b2z (v =? 0)) (seval st a)
+  | XIsNil s =>
+      match slice_of st s with
+      | Some (_ :: _) => Some 0
+      | _ => None
+      end
   end.
 
 Definition set_int (x : string) (t : ty) (v : Z) (st : state) : state :=
@@ -133,8 +145,11 @@ Definition set_slice (s : string) (t : ty) (l : list Z) (st : state) : state :=
 Definition restrict (outer st : state) : state :=
   {| ints := firstn (List.length (ints outer)) (ints st); slices := firstn (List.length (slices outer)) (slices st) |}.
 
-(* result of a statement: the new state and, after a return, the slice *)
-Definition sres := option (state * option (list Z)).
+(* what a function returns: a slice, or an integer and an error (named by the text of its expression, "" for nil) *)
+Inductive rval := RSlice (l : list Z) | RIntErr (n : Z) (err : string).
+
+(* result of a statement: the new state and, after a return, the value *)
+Definition sres := option (state * option rval).
 
 Section SSeq.
   Variable exec1 : sstmt -> state -> sres.
@@ -210,7 +225,7 @@ Fixpoint sexec (s : sstmt) (st : state) {struct s} : sres :=
       end
   | TReturn s =>
       match slice_of st s with
-      | Some l => Some (st, Some l)
+      | Some l => Some (st, Some (RSlice l))
       | None => None
       end
   | TAssign x e =>
@@ -234,8 +249,22 @@ Fixpoint sexec (s : sstmt) (st : state) {struct s} : sres :=
       end
   | TReturnApp s e =>
       match lookup s (slices st), seval st e with
-      | Some (t, l), Some v => Some (st, Some (l ++ [wrap t v]))
+      | Some (t, l), Some v => Some (st, Some (RSlice (l ++ [wrap t v])))
       | _, _ => None
+      end
+  | TForLen i s body =>
+      match slice_of st s, lookup i (ints st) with
+      | Some l, Some (t, _) =>
+          match loop_idx (fun k st' => sexec_seq sexec body (set_int i t k st')) (List.length l) 0 st with
+          | Some (st', None) => Some (set_int i t (Z.of_nat (List.length l)) st', None)
+          | r => r
+          end
+      | _, _ => None
+      end
+  | TReturnIntErr e err =>
+      match seval st e with
+      | Some v => Some (st, Some (RIntErr v err))
+      | None => None
       end
   end.
 
@@ -245,6 +274,19 @@ Definition sexec_list : list sstmt -> state -> sres := sexec_seq sexec.
 Definition srun (f : sfunc) (args : list (list Z)) : option (list Z) :=
   let st := {| ints := []; slices := map (fun p => (fst (fst p), (snd (fst p), snd p))) (combine (sf_params f) args) |} in
   match sexec_list (sf_body f) st with
-  | Some (_, Some l) => Some l
+  | Some (_, Some (RSlice l)) => Some l
   | _ => None
+  end.
+
+(* a call of a function that returns (int, error) and works on its first slice argument in place:
+   the integer, the error, and what that slice holds afterwards *)
+Definition srun_inplace (f : sfunc) (args : list (list Z)) : option (Z * string * list Z) :=
+  let st := {| ints := []; slices := map (fun p => (fst (fst p), (snd (fst p), snd p))) (combine (sf_params f) args) |} in
+  match sexec_list (sf_body f) st, sf_params f with
+  | Some (st', Some (RIntErr n err)), (b, _) :: _ =>
+      match slice_of st' b with
+      | Some l => Some (n, err, l)
+      | None => None
+      end
+  | _, _ => None
   end.
